@@ -36,7 +36,9 @@ namespace DV
 /-- Python's `int(x)` on a float (truncation toward zero); `none` for inf/nan (Python raises) -/
 class HasTrunc (α : Type) where
   truncInt : α → Option Int
+  /-- `x == inf` or `x == -inf` (an infinite target time) -/
+  isInf : α → Bool
 
-instance : HasTrunc Rat := ⟨fun x => some (Int.tdiv x.num x.den)⟩
-instance : HasTrunc Float := ⟨fun x => if x.isNaN || x.isInf then none else some x.toInt64.toInt⟩
+instance : HasTrunc Rat := ⟨fun x => some (Int.tdiv x.num x.den), fun _ => false⟩
+instance : HasTrunc Float := ⟨fun x => if x.isNaN || x.isInf then none else some x.toInt64.toInt, fun x => x.isInf⟩
 end DV
